@@ -2,8 +2,8 @@
 
 Differential check of every pstm_* operation against GMP (checks/c13_bignum.c).
 quick: one stage on the ASan+UBSan build (~300 k library calls, seed-stable grid).
-thorough: the same harness on the ASan build (x10) and a second stage on the
-`prod` build (repository default flags, -O3 + inline asm; x100).
+thorough: the same harness on the ASan build (x16) and a second stage on the
+`prod` build (repository default flags, -O3 + inline asm; x320).
 """
 import json, os, re
 import vflib
@@ -34,7 +34,7 @@ def run(ctx):
         m = re.search(r"v=(\w+)", case)
         stages = [_stage(m.group(1) if m and m.group(1) in vflib.VARIANTS else "asan", 1)]
     elif ctx.thorough:
-        stages = [_stage("asan", 10), _stage("prod", 100)]
+        stages = [_stage("asan", 16), _stage("prod", 320)]
     else:
         stages = [_stage("asan", 1)]
     return vflib.std_run(ctx, stages, "differential", RULE, ASSUME, min_nontrivial=2000)
